@@ -85,8 +85,6 @@ M = [
     ("C13", "relative_error_without_abs", S + "GridOperation.py",
      "            return LA.norm(abs((self.reference_solution - self.integral) / self.reference_solution), norm) / (\n                        len(self.integral) ** (1 / norm))\n\n    #    def area_postprocessing",
      "            return LA.norm(abs((self.reference_solution - self.integral) / abs(self.reference_solution + self.integral) * 2), norm) / (\n                        len(self.integral) ** (1 / norm))\n\n    #    def area_postprocessing"),
-    ("C14", "reinit_keeps_evaluations", S + "spatiallyAdaptiveSingleDimension2.py", "        self.refinement.reinit_new_objects()\n        #self.evaluationCounts",
-     "        #self.evaluationCounts"),
     ("C14", "dump_without_function_dict", S + "StandardCombi.py", "            with open(filename, 'wb') as f:\n                dill.dump(self, f)",
      "            with open(filename, 'wb') as f:\n                saved = getattr(getattr(self.operation, 'f', None), 'f_dict', None)\n                if saved is not None:\n                    self.operation.f.f_dict = {}\n                dill.dump(self, f)\n                if saved is not None:\n                    self.operation.f.f_dict = saved"),
     ("C15", "no_renormalisation", S + "Grid.py", "            f = 1.0 / sum(weights[1:-1])\n", "            f = 1.0\n"),
@@ -94,7 +92,7 @@ M = [
     ("C15", "variance_from_expectation", S + "GridOperation.py", "        variance = [mom2[i] - ex * ex for i, ex in enumerate(expectation)]", "        variance = [mom2[i] - ex * abs(ex) for i, ex in enumerate(expectation)]"),
     ("C16", "uniform_offdiagonal", S + "GridOperation.py", "                                res *= 1 / (2 ** (levelvec[k] - 1) * 12)\n\n                        if res == 0:\n                            self.log_util.log_debug(\"-\" * 100)\n                            self.log_util.log_debug(\"Skipping calculation\")\n                            self.log_util.log_debug(\"Gridpoints: {0} {1}\".format(index_list[i], index_list[j]))\n                        else:\n                            R[i, j] = res",
      "                                res *= 1 / (2 ** (levelvec[k] - 1) * 6)\n\n                        if res == 0:\n                            self.log_util.log_debug(\"-\" * 100)\n                            self.log_util.log_debug(\"Skipping calculation\")\n                            self.log_util.log_debug(\"Gridpoints: {0} {1}\".format(index_list[i], index_list[j]))\n                        else:\n                            R[i, j] = res"),
-    ("C16", "double_count_at_grid_points", S + "GridOperation.py", "            value2_temp[value2_temp >= 1] = 0", "            value2_temp[value2_temp > 1] = 0"),
+    ("C16", "double_count_at_grid_points", S + "GridOperation.py", "            value2_temp[value_2_temp <= 0] = 0", "            value2_temp[value_2_temp < 0] = 0"),
     ("C16", "normalisation_without_clip", S + "GridOperation.py",
      "        integral = np.inner(alphas.clip(min=0.0), weights) / sum(weights)\n        if integral != 0.0:\n            alphas /= integral",
      "        integral = np.inner(alphas, weights) / sum(weights)\n        if integral != 0.0:\n            alphas /= integral"),
